@@ -1,3 +1,318 @@
 import GnpyModel
-/- Property theorems for C02 (only the property theorems and their non-vacuity examples live here;
-   helper lemmas go to GnpyProofs/Lemmas). -/
+import GnpyProofs.Lemmas.Db
+import GnpyProofs.Lemmas.Spectrum
+import GnpyProofs.Props.C01
+/- Property theorems for C02 — signal quality never improves along a path; passive elements leave it
+   unchanged.  Model: GnpyModel/Spectrum.lean.  All statements over ℝ.
+
+   The three figures are `snrLin = s/a` (OSNR_ASE), `snrNli = s/n`, `gsnr = s/(a+n)`.  While a noise share is still
+   zero the figure is +∞ in the code (numpy division) – to state monotonicity for *every* state the theorems are
+   first given for the inverse figures `nsrAse = a/s`, `nsrNli = n/s`, `nsr = (a+n)/s` (non-decreasing), then for
+   the figures themselves where they are finite. -/
+namespace Gnpy.Spectrum
+open Chan
+
+/-! ### attenuation and gain do not touch the shares -/
+
+/-- attenuation / gain (linear or dB) leave the three shares literally unchanged -/
+theorem attLin_ratios (c : Chan ℝ) (g : ℝ) :
+    (c.attLin g).s = c.s ∧ (c.attLin g).a = c.a ∧ (c.attLin g).n = c.n := ⟨rfl, rfl, rfl⟩
+theorem attDb_ratios (c : Chan ℝ) (d : ℝ) :
+    (c.attDb d).s = c.s ∧ (c.attDb d).a = c.a ∧ (c.attDb d).n = c.n := ⟨rfl, rfl, rfl⟩
+theorem gainLin_ratios (c : Chan ℝ) (g : ℝ) :
+    (c.gainLin g).s = c.s ∧ (c.gainLin g).a = c.a ∧ (c.gainLin g).n = c.n := ⟨rfl, rfl, rfl⟩
+theorem gainDb_ratios (c : Chan ℝ) (d : ℝ) :
+    (c.gainDb d).s = c.s ∧ (c.gainDb d).a = c.a ∧ (c.gainDb d).n = c.n := ⟨rfl, rfl, rfl⟩
+
+/-- equal shares give equal figures (all three, and their inverses) -/
+theorem figures_of_ratios (c c' : Chan ℝ) (hs : c'.s = c.s) (ha : c'.a = c.a) (hn : c'.n = c.n) :
+    c'.gsnr = c.gsnr ∧ c'.snrLin = c.snrLin ∧ c'.snrNli = c.snrNli ∧
+    c'.nsr = c.nsr ∧ c'.nsrAse = c.nsrAse ∧ c'.nsrNli = c.nsrNli := by
+  simp only [gsnr, snrLin, snrNli, nsr, nsrAse, nsrNli, hs, ha, hn, and_self]
+
+/-- a run of attenuations and gains only -/
+def Passive : List (Op ℝ) → Prop
+  | [] => True
+  | .attLin _ :: r => Passive r
+  | .attDb _ :: r => Passive r
+  | .gainLin _ :: r => Passive r
+  | .gainDb _ :: r => Passive r
+  | _ :: _ => False
+
+/-- **passive op lists leave the shares – hence GSNR, OSNR_ASE and SNR_NLI – exactly unchanged** -/
+theorem passive_unchanged (ops : List (Op ℝ)) (c : Chan ℝ) (h : Passive ops) :
+    (run ops c).s = c.s ∧ (run ops c).a = c.a ∧ (run ops c).n = c.n := by
+  induction ops generalizing c with
+  | nil => exact ⟨rfl, rfl, rfl⟩
+  | cons o r ih =>
+    cases o <;> simp only [Passive] at h
+    all_goals (rw [run_cons]; exact ih _ h)
+
+/-! ### adding ASE -/
+
+/-- ASE does not touch SNR_NLI -/
+theorem addAse_snrNli_eq (c : Chan ℝ) (e : ℝ) (hp : 0 < c.p) (he : 0 ≤ e) :
+    (c.addAse e).snrNli = c.snrNli ∧ (c.addAse e).nsrNli = c.nsrNli := by
+  have hp' : 0 < c.p + e := by linarith
+  have hk : c.p / (c.p + e) ≠ 0 := by positivity
+  simp only [addAse, snrNli, nsrNli]
+  exact ⟨mul_div_mul_right _ _ hk, mul_div_mul_right _ _ hk⟩
+
+/-- ASE raises the ASE-to-signal ratio by exactly `e / signal power` -/
+theorem addAse_nsrAse (c : Chan ℝ) (e : ℝ) (hp : 0 < c.p) (hs : 0 < c.s) (he : 0 ≤ e) :
+    (c.addAse e).nsrAse = c.nsrAse + e / c.signal := by
+  have hp' : c.p + e ≠ 0 := by linarith
+  simp only [addAse, nsrAse, signal]
+  field_simp
+
+theorem addAse_nsrAse_ge (c : Chan ℝ) (e : ℝ) (hp : 0 < c.p) (hs : 0 < c.s) (he : 0 ≤ e) :
+    c.nsrAse ≤ (c.addAse e).nsrAse := by
+  rw [addAse_nsrAse c e hp hs he]
+  have : 0 ≤ e / c.signal := by simp only [signal]; positivity
+  linarith
+
+/-- OSNR_ASE can only go down when ASE is added (stated where it is finite) -/
+theorem addAse_snr_le (c : Chan ℝ) (e : ℝ) (hp : 0 < c.p) (hs : 0 < c.s) (ha : 0 < c.a) (he : 0 ≤ e) :
+    (c.addAse e).snrLin ≤ c.snrLin := by
+  have h := addAse_nsrAse_ge c e hp hs he
+  have h0 : 0 < c.nsrAse := by simp only [nsrAse]; positivity
+  have e1 : c.snrLin = 1 / c.nsrAse := by simp only [snrLin, nsrAse, one_div, inv_div]
+  have e2 : (c.addAse e).snrLin = 1 / (c.addAse e).nsrAse := by simp only [snrLin, nsrAse, one_div, inv_div]
+  rw [e1, e2]
+  exact one_div_le_one_div_of_le h0 h
+
+theorem nsr_eq (c : Chan ℝ) : c.nsr = c.nsrAse + c.nsrNli := nsr_split c
+
+theorem addAse_nsr_ge (c : Chan ℝ) (e : ℝ) (hp : 0 < c.p) (hs : 0 < c.s) (he : 0 ≤ e) :
+    c.nsr ≤ (c.addAse e).nsr := by
+  rw [nsr_eq, nsr_eq, (addAse_snrNli_eq c e hp he).2]
+  have := addAse_nsrAse_ge c e hp hs he
+  linarith
+
+theorem inv_figures (c : Chan ℝ) : c.gsnr = 1 / c.nsr ∧ c.snrLin = 1 / c.nsrAse ∧ c.snrNli = 1 / c.nsrNli := by
+  simp only [gsnr, snrLin, snrNli, nsr, nsrAse, nsrNli, one_div, inv_div, and_self]
+
+/-- GSNR can only go down when ASE is added -/
+theorem addAse_gsnr_le (c : Chan ℝ) (e : ℝ) (hp : 0 < c.p) (hs : 0 < c.s) (hno : 0 < c.a + c.n) (he : 0 ≤ e) :
+    (c.addAse e).gsnr ≤ c.gsnr := by
+  have h := addAse_nsr_ge c e hp hs he
+  have h0 : 0 < c.nsr := by simp only [nsr]; positivity
+  rw [(inv_figures c).1, (inv_figures (c.addAse e)).1]
+  exact one_div_le_one_div_of_le h0 h
+
+/-! ### adding NLI -/
+
+/-- NLI does not touch OSNR_ASE (signal and ASE are reduced by the same factor) -/
+theorem addNli_snr_eq (c : Chan ℝ) (x : ℝ) (hp : 0 < c.p) (hx : x < c.p) :
+    (c.addNli x).snrLin = c.snrLin ∧ (c.addNli x).nsrAse = c.nsrAse := by
+  have hr : x / c.p < 1 := by rw [div_lt_one hp]; exact hx
+  have hk : (1:ℝ) - x / c.p ≠ 0 := by linarith
+  simp only [addNli, snrLin, nsrAse, Nat.cast_one]
+  exact ⟨mul_div_mul_right _ _ hk, mul_div_mul_right _ _ hk⟩
+
+/-- NLI raises the NLI-to-signal ratio by exactly `r / (s·(1−r))`, `r = x / p` -/
+theorem addNli_nsrNli (c : Chan ℝ) (x : ℝ) (hp : 0 < c.p) (hs : 0 < c.s) (hx : x < c.p) :
+    (c.addNli x).nsrNli = c.nsrNli + (x / c.p) / (c.s * (1 - x / c.p)) := by
+  have hr : x / c.p < 1 := by rw [div_lt_one hp]; exact hx
+  have hk : (1:ℝ) - x / c.p ≠ 0 := by linarith
+  have hs' : c.s ≠ 0 := ne_of_gt hs
+  have hpx : c.p - x ≠ 0 := by linarith
+  simp only [addNli, nsrNli, Nat.cast_one]
+  field_simp
+
+theorem addNli_nsrNli_ge (c : Chan ℝ) (x : ℝ) (hp : 0 < c.p) (hs : 0 < c.s) (hx0 : 0 ≤ x) (hx : x < c.p) :
+    c.nsrNli ≤ (c.addNli x).nsrNli := by
+  rw [addNli_nsrNli c x hp hs hx]
+  have hr : x / c.p < 1 := by rw [div_lt_one hp]; exact hx
+  have h1 : 0 < 1 - x / c.p := by linarith
+  have : 0 ≤ (x / c.p) / (c.s * (1 - x / c.p)) := by positivity
+  linarith
+
+/-- SNR_NLI can only go down when NLI is added (stated where it is finite) -/
+theorem addNli_snrNli_le (c : Chan ℝ) (x : ℝ) (hp : 0 < c.p) (hs : 0 < c.s) (hn : 0 < c.n) (hx0 : 0 ≤ x)
+    (hx : x < c.p) : (c.addNli x).snrNli ≤ c.snrNli := by
+  have h := addNli_nsrNli_ge c x hp hs hx0 hx
+  have h0 : 0 < c.nsrNli := by simp only [nsrNli]; positivity
+  rw [(inv_figures c).2.2, (inv_figures (c.addNli x)).2.2]
+  exact one_div_le_one_div_of_le h0 h
+
+theorem addNli_nsr_ge (c : Chan ℝ) (x : ℝ) (hp : 0 < c.p) (hs : 0 < c.s) (hx0 : 0 ≤ x) (hx : x < c.p) :
+    c.nsr ≤ (c.addNli x).nsr := by
+  rw [nsr_eq, nsr_eq, (addNli_snr_eq c x hp hx).2]
+  have := addNli_nsrNli_ge c x hp hs hx0 hx
+  linarith
+
+theorem addNli_gsnr_le (c : Chan ℝ) (x : ℝ) (hp : 0 < c.p) (hs : 0 < c.s) (hno : 0 < c.a + c.n) (hx0 : 0 ≤ x)
+    (hx : x < c.p) : (c.addNli x).gsnr ≤ c.gsnr := by
+  have h := addNli_nsr_ge c x hp hs hx0 hx
+  have h0 : 0 < c.nsr := by simp only [nsr]; positivity
+  rw [(inv_figures c).1, (inv_figures (c.addNli x)).1]
+  exact one_div_le_one_div_of_le h0 h
+
+/-! ### monotonicity along every run and every path -/
+
+/-- "no better than": each of the three noise-to-signal ratios of `c'` is at least that of `c` -/
+def Worse (c c' : Chan ℝ) : Prop := c.nsrAse ≤ c'.nsrAse ∧ c.nsrNli ≤ c'.nsrNli ∧ c.nsr ≤ c'.nsr
+
+theorem worse_refl (c : Chan ℝ) : Worse c c := ⟨le_refl _, le_refl _, le_refl _⟩
+theorem worse_trans {a b c : Chan ℝ} (h1 : Worse a b) (h2 : Worse b c) : Worse a c :=
+  ⟨le_trans h1.1 h2.1, le_trans h1.2.1 h2.2.1, le_trans h1.2.2 h2.2.2⟩
+
+theorem worse_of_ratios (c c' : Chan ℝ) (hs : c'.s = c.s) (ha : c'.a = c.a) (hn : c'.n = c.n) : Worse c c' := by
+  obtain ⟨_, _, _, h1, h2, h3⟩ := figures_of_ratios c c' hs ha hn
+  exact ⟨le_of_eq h2.symm, le_of_eq h3.symm, le_of_eq h1.symm⟩
+
+/-- one guarded mutating call never improves any of the three figures -/
+theorem step_monotone (c : Chan ℝ) (o : Op ℝ) (h : Live c) (ho : OpOk c o) : Worse c (step c o) := by
+  have hp := h.1.1
+  cases o with
+  | attLin g => exact worse_of_ratios _ _ rfl rfl rfl
+  | attDb d => exact worse_of_ratios _ _ rfl rfl rfl
+  | gainLin g => exact worse_of_ratios _ _ rfl rfl rfl
+  | gainDb d => exact worse_of_ratios _ _ rfl rfl rfl
+  | addAse e =>
+    exact ⟨addAse_nsrAse_ge c e hp h.2 ho, le_of_eq (addAse_snrNli_eq c e hp ho).2.symm, addAse_nsr_ge c e hp h.2 ho⟩
+  | addNli x =>
+    exact ⟨le_of_eq (addNli_snr_eq c x hp ho.2).2.symm, addNli_nsrNli_ge c x hp h.2 ho.1 ho.2,
+           addNli_nsr_ge c x hp h.2 ho.1 ho.2⟩
+
+/-- **C02, every operation sequence**: GSNR, OSNR_ASE and SNR_NLI (as inverse figures) are monotone along the run -/
+theorem run_monotone (ops : List (Op ℝ)) (c : Chan ℝ) (h : Live c) (hok : RunOk ops c) : Worse c (run ops c) := by
+  induction ops generalizing c with
+  | nil => exact worse_refl c
+  | cons o r ih =>
+    exact worse_trans (step_monotone c o h hok.1) (ih (step c o) (step_live c o h hok.1) hok.2)
+
+/-- the figures themselves, where finite, are non-increasing along every run -/
+theorem run_figures_antitone (ops : List (Op ℝ)) (c : Chan ℝ) (h : Live c) (hok : RunOk ops c) :
+    (0 < c.a → (run ops c).snrLin ≤ c.snrLin) ∧ (0 < c.n → (run ops c).snrNli ≤ c.snrNli) ∧
+    (0 < c.a + c.n → (run ops c).gsnr ≤ c.gsnr) := by
+  obtain ⟨h1, h2, h3⟩ := run_monotone ops c h hok
+  have hs := h.2
+  refine ⟨fun ha => ?_, fun hn => ?_, fun hno => ?_⟩
+  · have h0 : 0 < c.nsrAse := by simp only [nsrAse]; positivity
+    rw [(inv_figures c).2.1, (inv_figures (run ops c)).2.1]
+    exact one_div_le_one_div_of_le h0 h1
+  · have h0 : 0 < c.nsrNli := by simp only [nsrNli]; positivity
+    rw [(inv_figures c).2.2, (inv_figures (run ops c)).2.2]
+    exact one_div_le_one_div_of_le h0 h2
+  · have h0 : 0 < c.nsr := by simp only [nsr]; positivity
+    rw [(inv_figures c).1, (inv_figures (run ops c)).1]
+    exact one_div_le_one_div_of_le h0 h3
+
+theorem path_append (l r : List (Elem ℝ)) (c : Chan ℝ) : path (l ++ r) c = path r (path l c) := by
+  simp [path, List.foldl_append]
+
+theorem pathOk_append (l r : List (Elem ℝ)) (c : Chan ℝ) :
+    PathOk (l ++ r) c ↔ PathOk l c ∧ PathOk r (path l c) := by
+  induction l generalizing c with
+  | nil => simp [PathOk, path_nil]
+  | cons e l ih => simp [PathOk, path_cons, ih, and_assoc]
+
+theorem path_live (es : List (Elem ℝ)) (c : Chan ℝ) (h : Live c) (hok : PathOk es c) : Live (path es c) := by
+  rw [path_eq_run]; exact run_live _ c h ((pathOk_iff es c).1 hok)
+
+/-- **C02, every path, from element to element**: after any prefix `l` of a path the figures are no
+better than at the start, and after any longer prefix `l ++ r` no better than after `l` -/
+theorem path_monotone (l r : List (Elem ℝ)) (c : Chan ℝ) (h : Live c) (hok : PathOk (l ++ r) c) :
+    Worse c (path l c) ∧ Worse (path l c) (path (l ++ r) c) := by
+  obtain ⟨hl, hr⟩ := (pathOk_append l r c).1 hok
+  refine ⟨?_, ?_⟩
+  · rw [path_eq_run]; exact run_monotone _ c h ((pathOk_iff l c).1 hl)
+  · rw [path_append, path_eq_run r]
+    exact run_monotone _ _ (path_live l c h hl) ((pathOk_iff r _).1 hr)
+
+/-! ### element corollaries -/
+
+/-- a ROADM leaves all three figures exactly unchanged (whatever its loss and equalisation) -/
+theorem roadm_unchanged (ml d : ℝ) (c : Chan ℝ) :
+    ((Elem.roadm ml d).apply c).s = c.s ∧ ((Elem.roadm ml d).apply c).a = c.a ∧ ((Elem.roadm ml d).apply c).n = c.n :=
+  ⟨rfl, rfl, rfl⟩
+
+/-- a fused attenuator / connector / padding loss leaves all three figures exactly unchanged -/
+theorem fused_unchanged (l : ℝ) (c : Chan ℝ) :
+    ((Elem.fused l).apply c).s = c.s ∧ ((Elem.fused l).apply c).a = c.a ∧ ((Elem.fused l).apply c).n = c.n :=
+  ⟨rfl, rfl, rfl⟩
+
+theorem trx_unchanged (c : Chan ℝ) : (Elem.trx : Elem ℝ).apply c = c := rfl
+
+theorem passive_elements_figures (c : Chan ℝ) (ml d l : ℝ) :
+    ((Elem.roadm ml d).apply c).gsnr = c.gsnr ∧ ((Elem.roadm ml d).apply c).snrLin = c.snrLin ∧
+    ((Elem.roadm ml d).apply c).snrNli = c.snrNli ∧
+    ((Elem.fused l).apply c).gsnr = c.gsnr ∧ ((Elem.fused l).apply c).snrLin = c.snrLin ∧
+    ((Elem.fused l).apply c).snrNli = c.snrNli := ⟨rfl, rfl, rfl, rfl, rfl, rfl⟩
+
+/-- **an amplifier can only lower OSNR_ASE**: SNR_NLI is exactly unchanged, the ASE-to-signal ratio does not decrease -/
+theorem edfa_only_osnr (v : Option ℝ) (e g : ℝ) (c : Chan ℝ) (h : Live c) (he : 0 ≤ e) :
+    ((Elem.edfa v e g).apply c).snrNli = c.snrNli ∧ ((Elem.edfa v e g).apply c).nsrNli = c.nsrNli ∧
+    c.nsrAse ≤ ((Elem.edfa v e g).apply c).nsrAse := by
+  cases v with
+  | none =>
+    have hp := h.1.1
+    refine ⟨(addAse_snrNli_eq c e hp he).1, (addAse_snrNli_eq c e hp he).2, addAse_nsrAse_ge c e hp h.2 he⟩
+  | some v =>
+    have hl : Live (c.attDb v) := ⟨attDb_inv c v h.1, h.2⟩
+    have hp := hl.1.1
+    refine ⟨(addAse_snrNli_eq (c.attDb v) e hp he).1, (addAse_snrNli_eq (c.attDb v) e hp he).2,
+            addAse_nsrAse_ge (c.attDb v) e hp hl.2 he⟩
+
+/-- **a (non-Raman) fibre can only lower SNR_NLI**: OSNR_ASE is exactly unchanged -/
+theorem fiber_only_nli (i x f o : ℝ) (c : Chan ℝ) (h : Live c) (hx0 : 0 ≤ x) (hx : x < (c.attDb i).p) :
+    ((Elem.fiber i x f o).apply c).snrLin = c.snrLin ∧ ((Elem.fiber i x f o).apply c).nsrAse = c.nsrAse ∧
+    c.nsrNli ≤ ((Elem.fiber i x f o).apply c).nsrNli := by
+  have hl : Live (c.attDb i) := ⟨attDb_inv c i h.1, h.2⟩
+  have hp := hl.1.1
+  exact ⟨(addNli_snr_eq (c.attDb i) x hp hx).1, (addNli_snr_eq (c.attDb i) x hp hx).2,
+         addNli_nsrNli_ge (c.attDb i) x hp hl.2 hx0 hx⟩
+
+/-- a Raman fibre adds both kinds of noise: neither figure improves -/
+theorem raman_monotone (i x e f o : ℝ) (c : Chan ℝ) (h : Live c) (hx0 : 0 ≤ x) (hx : x < (c.attDb i).p)
+    (he : 0 ≤ e) (hf : 0 < f) : Worse c ((Elem.raman i x e f o).apply c) :=
+  run_monotone _ c h ⟨trivial, ⟨hx0, hx⟩, he, hf, trivial, trivial⟩
+
+/-- through a multiband amplifier every channel keeps its SNR_NLI and its OSNR_ASE does not improve -/
+theorem multiband_only_osnr (amps : List ((Int → Bool) × (Int → Elem ℝ))) (sp out : List (Int × Chan ℝ))
+    (h : multiband amps sp = some out) (hlive : ∀ kc ∈ sp, Live kc.2)
+    (hedfa : ∀ bf ∈ amps, ∀ f, ∃ v e g, bf.2 f = Elem.edfa v e g ∧ 0 ≤ e) :
+    ∀ kc ∈ out, ∃ c, (kc.1, c) ∈ sp ∧ kc.2.nsrNli = c.nsrNli ∧ c.nsrAse ≤ kc.2.nsrAse := by
+  intro kc hkc
+  obtain ⟨bf, hbf, c, hc, _, heq⟩ := multiband_mem amps sp out h kc hkc
+  obtain ⟨v, e, g, hel, he⟩ := hedfa bf hbf kc.1
+  refine ⟨c, hc, ?_, ?_⟩
+  · rw [heq, hel]; exact (edfa_only_osnr v e g c (hlive _ hc) he).2.1
+  · rw [heq, hel]; exact (edfa_only_osnr v e g c (hlive _ hc) he).2.2
+
+/-- a spectrum through one element: channel by channel no figure improves -/
+theorem applyElems_monotone (es : List (Elem ℝ)) (sp : List (Chan ℝ))
+    (h : List.Forall₂ (fun e c => Live c ∧ RunOk e.ops c) es sp) :
+    List.Forall₂ (fun c c' => Worse c c') sp (applyElems es sp) := by
+  induction h with
+  | nil => exact List.Forall₂.nil
+  | cons hd _ ih =>
+    simp only [applyElems, List.zipWith_cons_cons]
+    exact List.Forall₂.cons (run_monotone _ _ hd.1 hd.2) ih
+
+
+/-! ### non-vacuity -/
+
+/-- a guarded path ROADM → amplifier → fibre → amplifier exists (hypotheses of `path_monotone`) -/
+example : PathOk [Elem.roadm 0 0, Elem.edfa (some 0) (1/1000000000) 20, Elem.fiber 0 (1/100000000) (1/100) 0,
+                  Elem.edfa none (1/1000000000) 20]
+    ({ p := 1/1000, s := 1, a := 0, n := 0 } : Chan ℝ) := by
+  have h20 : (1:ℝ) < db2lin 20 := by rw [← db2lin_zero]; exact (db2lin_lt_iff 0 20).2 (by norm_num)
+  have h0 : db2lin (0:ℝ) = 1 := db2lin_zero
+  refine ⟨⟨trivial, trivial, trivial⟩, ⟨trivial, ?_, trivial, trivial⟩, ⟨trivial, ⟨?_, ?_⟩, ?_, trivial, trivial⟩,
+          ⟨?_, trivial, trivial⟩, trivial⟩
+  · show (0:ℝ) ≤ 1/1000000000; norm_num
+  · show (0:ℝ) ≤ 1/100000000; norm_num
+  · -- the NLI (1e-8 W) is below the power entering the fibre, (1e-3 + 1e-9)·db2lin 20 > 1e-3
+    simp only [Elem.apply, Elem.ops, roadmOps, edfaOps, run, List.foldl, step, attDb, attLin, gainDb, gainLin, addAse,
+      List.cons_append, List.nil_append, Nat.cast_one, h0]
+    nlinarith
+  · show (0:ℝ) < 1/100; norm_num
+  · show (0:ℝ) ≤ 1/1000000000; norm_num
+
+example : Live ({ p := 1/1000, s := 1, a := 0, n := 0 } : Chan ℝ) :=
+  ⟨⟨by norm_num, by norm_num, by norm_num, by norm_num, by norm_num⟩, by norm_num⟩
+
+end Gnpy.Spectrum
